@@ -102,9 +102,9 @@ def _bisect_gen(draw):
         else:
             q = vals[-1] + draw(st.floats(0, 1e6))
         queries.append(q)
-    # how a scalar query is handed over: a numpy float64 scalar, a 0-d float64 array, or (only for nodes at least as wide)
-    # a Python float - numpy compares a Python float in the precision of the array, so for narrower nodes that is a different question
-    qtype = draw(st.sampled_from(["np64", "arr0d"] if kind in ("float32", "float16") else ["pyfloat", "np64", "arr0d"]))
+    # how a scalar query is handed over: a numpy float64 scalar, a 0-d float64 array, or a Python float (which NumPy treats as a
+    # weakly typed operand: against float32 / float16 nodes the library has to widen it itself - D58)
+    qtype = draw(st.sampled_from(["pyfloat", "np64", "arr0d"]))
     return dict(part="bisect_gen", arr=vals, kind=kind, queries=queries, qtype=qtype)
 
 
@@ -256,6 +256,15 @@ def _check_hermite(case):
         for name, got, want in [("value@t0", H(t0), p0), ("value@t1", H(t1), p1), ("slope@t0", H.grad(t0), m0), ("slope@t1", H.grad(t1), m1)]:
             if np.shape(got) != shape or not np.array_equal(np.asarray(got), np.asarray(want)):
                 viols.append(V("hermite_ends", "{}: got {} want {} (t0={}, t1={})".format(name, np.asarray(got).tolist(), np.asarray(want).tolist(), float(t0), float(t1)), sig + name))
+        # what an evaluation hands out belongs to the caller: modifying it in place must not change the piece
+        if not viols:
+            for name, fn, tq, want in [("value@t0", H, t0, p0.copy()), ("value@t1", H, t1, p1.copy()), ("slope@t0", H.grad, t0, m0.copy()), ("slope@t1", H.grad, t1, m1.copy())]:
+                first = fn(tq)
+                if isinstance(first, np.ndarray):
+                    first += dt(1)
+                    if not np.array_equal(np.asarray(fn(tq)), want):
+                        viols.append(V("hermite_ends_aliased", "{}: after `v = H(t); v += 1` the same evaluation returns {} (end data {})".format(name, np.asarray(fn(tq)).tolist(), want.tolist()), sig + name))
+                        break
         for u in case["us"]:
             t = dt(LD(t0) + LD(u) * L)
             if t == t0 or t == t1:
